@@ -176,6 +176,7 @@ Definition api_send_data (sid len : Z) (end_stream : bool) (pad : option Z) : CM
 
 Definition api_end_stream (sid : Z) : CM unit :=
   cfsm CI_SEND_DATA ;;;
+  get_stream_by_id sid ;;;
   frames <- with_stream sid end_stream ;;
   prepare_for_sending frames.
 
@@ -186,7 +187,7 @@ Definition api_increment_window (inc : Z) (sid : option Z) : CM unit :=
   (if g_inc_range inc then crash ValueError else ret tt) ;;;
   cfsm CI_SEND_WINDOW_UPDATE ;;;
   frames <- match sid with
-            | Some i => with_stream i (increase_flow_control_window inc)
+            | Some i => get_stream_by_id i ;;; with_stream i (increase_flow_control_window inc)
             | None => lift_cwm (fun w => window_opened w inc) ;;; ret [FWindowUpdate 0 inc]
             end ;;
   prepare_for_sending frames.
@@ -257,16 +258,23 @@ Definition api_prioritize (sid : Z) (w d : option Z) (e : option bool) : CM unit
 Definition api_acknowledge_received_data (n sid : Z) : CM unit :=
   (if g_ack_sid sid then crash ValueError else ret tt) ;;;
   (if g_ack_size n then crash ValueError else ret tt) ;;;
-  o <- lift_cwm (fun w => let '(w', o) := process_bytes w n in (w', Ok o)) ;;
-  let f1 := match wm_increment o with Some inc => [FWindowUpdate 0 inc] | None => [] end in
   c <- get ;;
-  f2 <- match dget sid (c_streams c) with
-        | Some s => if s_open s then with_stream sid (acknowledge_received_data n) else ret []
-        | None => if g_get_stream_nosuch sid (highest_for c sid)
-                  then fail NoSuchStreamError (exn_code NoSuchStreamError) sid false
-                  else ret []
-        end ;;
-  prepare_for_sending (f1 ++ f2).
+  if cstate_eqb (c_state c) C_CLOSED then ret tt       (* a closed connection emits nothing *)
+  else
+    (* the stream is looked up first: an unknown id raises before anything is credited *)
+    (match dget sid (c_streams c) with
+     | Some _ => ret tt
+     | None => if g_get_stream_nosuch sid (highest_for c sid)
+               then fail NoSuchStreamError (exn_code NoSuchStreamError) sid false
+               else ret tt
+     end) ;;;
+    o <- lift_cwm (fun w => let '(w', o) := process_bytes w n in (w', Ok o)) ;;
+    let f1 := match wm_increment o with Some inc => [FWindowUpdate 0 inc] | None => [] end in
+    f2 <- match dget sid (c_streams c) with
+          | Some s => if s_open s then with_stream sid (acknowledge_received_data n) else ret []
+          | None => ret []
+          end ;;
+    prepare_for_sending (f1 ++ f2).
 
 Definition api_next_stream_id : CM Z :=
   c <- get ;;
@@ -558,11 +566,11 @@ Definition frame_buffer_check (limit : Z) (f : rframe) (blen : Z) : fbres :=
   else match f with RBadBody _ | RTooLarge => FBReject f | _ => FBYield end.
 
 (* receive_data: the new bytes are appended to the buffer; frames are taken from its head one by
-   one; a frame the buffer rejects stays there.  The frame-size limit is read once per call. *)
+   one; a frame the buffer rejects stays there.  The frame-size limit in force is the acknowledged
+   MAX_FRAME_SIZE at the moment each frame is taken (an ACK updates the buffer's limit at once). *)
 Definition api_receive (fs : list (rframe * Z)) : CM (list event) :=
   modify (fun c => cset_inbuf c (c_inbuf c ++ fs)) ;;;
   c0 <- get ;;
-  let limit := c_max_in_frame c0 in
   (fix loop (fuel : nat) (acc : list event) : CM (list event) :=
      match fuel with
      | O => ret acc
@@ -572,7 +580,7 @@ Definition api_receive (fs : list (rframe * Z)) : CM (list event) :=
          | [] => (c, Ok acc)
          | (f, blen) :: rest =>
            let '(c1, res1) :=
-             match frame_buffer_check limit f blen with
+             match frame_buffer_check (c_max_in_frame c) f blen with
              | FBReject r => (dispatch r ;;; ret []) c
              | FBYield => receive_frame f (cset_inbuf c rest)
              end in
